@@ -7,7 +7,10 @@
    Statements only; proofs in Proofs/RoutesProofs.v.
 
    Known-defect classes (decidable predicates of Model/Routes.v; witnesses below and in known_findings.txt):
-     kf_mod_const, kf_mod_zero_div, kf_const_const   validation rejects satisfiable models          (C02)
+     kf_mod_const, kf_const_const                    validation rejected satisfiable models (D12)   (C02; REPAIRED by d12_validation_operands:
+                                                     mod_const_refuted / const_const_refuted speak about rvalidate_prefix; validate_accepts_more,
+                                                     validate_add_mul_operands, validate_mod_divisor state the repaired validator rvalidate)
+     kf_mod_zero_div                                 a divisor whose domain contains 0 is rejected   (scope, C17's documented invalid input)
      kf_felement_bounds                              functions::element result bounds -1000..1000  (C01/C02)
      kf_noop_route                                   functions::implies / cumulative enforce nothing (C01)
      kf_linreif_zero                                 D11 through the reified linear routes          (C01)
@@ -99,7 +102,7 @@ Print Assumptions routes_model_solutions.
 (* ---- the known classes contain genuine counterexamples ---- *)
 Theorem mod_const_refuted : exists prog r s ps a,
   kf_mod_const r = true /\ prog = [SB (SInt 0 3); SCall r] /\ lowered_of prog = Some (s, ps) /\
-  rvalidate s ps = Some VInvalidConstraint /\ inst a s /\ rallsatb ps a = true /\ route_sem r 1%nat a = true.
+  rvalidate_prefix s ps = Some VInvalidConstraint /\ rvalidate s ps = None /\ inst a s /\ rallsatb ps a = true /\ route_sem r 1%nat a = true.
 Proof. exact RoutesProofs.mod_const_refuted. Qed.
 Print Assumptions mod_const_refuted.
 
@@ -112,7 +115,7 @@ Print Assumptions mod_zero_div_refuted.
 
 Theorem const_const_refuted : exists prog r s ps a,
   kf_const_const r = true /\ prog = [SCall r] /\ lowered_of prog = Some (s, ps) /\
-  rvalidate s ps = Some VInvalidConstraint /\ inst a s /\ rallsatb ps a = true /\ route_sem r 0%nat a = true.
+  rvalidate_prefix s ps = Some VInvalidConstraint /\ rvalidate s ps = None /\ inst a s /\ rallsatb ps a = true /\ route_sem r 0%nat a = true.
 Proof. exact RoutesProofs.const_const_refuted. Qed.
 Print Assumptions const_const_refuted.
 
@@ -444,6 +447,43 @@ Theorem gcc_len_fixed_witness :
   rverr m = true /\ rpanic m = false /\ rverr (rbuild_ext_fixed [SB (SInt 0 3); SB (SInt 0 3); SCall (RGcc [0%nat; 1%nat] [1; 2] [0%nat])]) = false.
 Proof. exact RoutesProofs.gcc_len_fixed_witness. Qed.
 Print Assumptions gcc_len_fixed_witness.
+
+(* ------------------------------------------------------------------------------------------------
+   The repair d12_validation_operands (finding D12): validate_constraint_parameters counts OPERANDS for add / mul / div / modulo
+   (1-3 registered variables) and takes the divisor from the second operand.  rvalidate is the repaired validator, rvalidate_prefix
+   the one before (mod_const_refuted, const_const_refuted above). *)
+Theorem validate_add_mul_operands : forall s x y r, bad_params s (PB (PAdd x y r)) = false /\ bad_params s (PB (PMul x y r)) = false /\
+  bad_params s (PB (p_sub x y r)) = false.
+Proof. exact RoutesProofs.add_mul_params_ok. Qed.
+Print Assumptions validate_add_mul_operands.
+Theorem validate_mod_divisor : forall s x y r, bad_params s (PB (PMod x y r)) = divisor_can_be_zero s y.
+Proof. exact RoutesProofs.mod_params_divisor. Qed.
+Print Assumptions validate_mod_divisor.
+Theorem validate_mod_const_divisor : forall s x c r, bad_params s (PB (PMod x (VConst c) r)) = (c =? 0).
+Proof. exact RoutesProofs.mod_const_divisor. Qed.
+Print Assumptions validate_mod_const_divisor.
+Theorem validate_mod_var_divisor : forall s x d r, bad_params s (PB (PMod x (VVar d) r)) = memZ 0 (sget s d).
+Proof. exact RoutesProofs.mod_var_divisor. Qed.
+Print Assumptions validate_mod_var_divisor.
+(* the repair only accepts more *)
+Theorem validate_accepts_more : forall s ps, rvalidate_prefix s ps = None -> rvalidate s ps = None.
+Proof. exact RoutesProofs.rvalidate_accepts_more. Qed.
+Print Assumptions validate_accepts_more.
+Theorem d12_former_witnesses :
+  forallb (fun r => match lowered_of [SB (SInt 0 3); SB (SInt 1 3); SCall r] with
+                    | Some (s, ps) => match rvalidate s ps, rvalidate_prefix s ps with None, Some VInvalidConstraint => true | _, _ => false end
+                    | None => false end)
+    [RMod (OV 0%nat) (OC 2); RMod (OC 7) (OV 1%nat); RMod (OC 7) (OC 2); RMod (OV 0%nat) (OC (-3));
+     RAdd (OC 1) (OC 2); RSub (OC 1) (OC 2); RMul (OC 1) (OC 2)] = true.
+Proof. exact RoutesProofs.d12_former_witnesses. Qed.
+Print Assumptions d12_former_witnesses.
+Theorem d12_zero_divisor_rejected :
+  forallb (fun r => match lowered_of [SB (SInt 0 3); SB (SInt 1 3); SCall r] with
+                    | Some (s, ps) => match rvalidate s ps with Some VInvalidConstraint => true | _ => false end
+                    | None => false end)
+    [RMod (OV 0%nat) (OC 0); RMod (OV 1%nat) (OV 0%nat); RMod (OC 7) (OV 0%nat); RMod (OC 7) (OC 0)] = true.
+Proof. exact RoutesProofs.d12_zero_divisor_rejected. Qed.
+Print Assumptions d12_zero_divisor_rejected.
 
 (* ---- non-vacuity: a program mixing arithmetic, global, reified and boolean routes lies inside calls_ok;
    its lowering is the dump the tie compares ---- *)
